@@ -369,6 +369,14 @@ func c03Handover(e *Env) {
 			if mc, ok := r.(*ssa.MakeChan); ok {
 				return mc
 			}
+			if _, isP := r.(*ssa.Parameter); isP {
+				// the wait moved into a helper shared by several callers: the channel this function passes to it
+				for _, alt := range core.ResolveAll(v) {
+					if mc, ok := alt.(*ssa.MakeChan); ok && mc.Parent() == f {
+						return mc
+					}
+				}
+			}
 			var base ssa.Value
 			field := -1
 			switch x := r.(type) {
